@@ -6,7 +6,7 @@ THEOREMS = ['FlexVerif.bufferOp_start', 'FlexVerif.match_conserves', 'FlexVerif.
 
 def run(ctx):
     q1, q2, q3 = {'quick': (64, 48, 32), 'thorough': (600, 400, 200)}[ctx.tier]
-    plan = [('buffers', q1, 8), ('include', q2, 6)]
+    plan = [('buffers', q1, 8), ('include', q2, 6), ('wrapbol', q2, 6)]
     return rtprop.run(ctx, THEOREMS, plan, 'exploration',
                       'multiple input buffers: histories of create/scan_string/scan_bytes/scan_buffer (with and without the two NULs)/switch/push/pop/flush/delete between yylex calls and from inside actions (nested includes ended by <<EOF>> actions that pop and continue), buffer sizes 1..16384, per-buffer line numbers in reentrant scanners; the abstract scanner keeps one independent unread-input list per buffer' + '. Kernel-checked theorems about the abstract scanner (listed under obligations) + differential '
                       'correspondence of the real generated scanner (ASan/UBSan build) with that model on generated cases.')
